@@ -28,6 +28,11 @@ def main(tier, seed, replay=None):
             Ys[2] = [[hx(unhx(h) * 2.0 ** -12, c["scalar"]) for h in col] for col in Ys[2]]
             c["meta"]["small_observations"] = True
         c["ops"] = states.observe_at(rng, c, nsets=1)
+        if i % 3 == 2:
+            # a, b, a and the Jacobian at once: everything the Jacobian uses (U, coefficients, derivatives) belongs to a again
+            a_prev = [o for o in c["ops"] if o[0] == "set"][-1][1]
+            b_new = [hx(v, c["scalar"]) for v in distinct_params(rng, c["meta"]["P"], *c["meta"]["range"])]
+            c["ops"] = c["ops"] + [["set", b_new], ["set", a_prev]] + states.OBS
         cases.append(c)
     results, nterms, nskip, hist = states.run_states(run, "C03", binp, cases, 4, lambda code: code >= 10 or code == 2, "Jacobian")
     # the code-shaped formula U (U^T (W D_k C)) - W D_k C replayed exactly on the cached U and the reported coefficients
